@@ -154,6 +154,9 @@ class MXCSRRegister:
             def __enter__(self):
                 assert self.saved_state is None
                 self.saved_state = self.register.get_mxcsr()
+                # the register may have changed since this context was created (e.g. by an
+                # enclosing context): apply the requested bits to its value at entry
+                self.desired_state = self.register(FZ=FZ, DAZ=DAZ, RN=RN).desired_state
                 self.register.set_mxcsr(self.desired_state)
 
             def __exit__(self, exc_type, exc, exc_tb):
